@@ -9,8 +9,8 @@ pub mod h_classes;
 pub mod h_datetime_fromstr;
 #[path = "h_datetime_kernels.rs"]
 pub mod h_datetime_kernels;
-// h_encode.rs (C10 encode side through E2) is kept for reference but not compiled: none of its
-// harnesses finishes within 25 min (see DESIGN.md 10.3)
+#[path = "h_encode.rs"]
+pub mod h_encode;
 #[path = "h_float_writer.rs"]
 pub mod h_float_writer;
 #[path = "h_float.rs"]
